@@ -100,6 +100,33 @@ def tamper(ctx, rng, key, data):
             ctx.disagree(stream, inp, out, rep)
 
 
+def tamper_after_genuine(ctx, rng, key, datas, thorough):
+    """HISTORY on one protocol object: genuine responses are accepted first, then altered copies of them arrive on the same
+    connection (a replayed / corrupted retransmission).  What was accepted before must not make an altered packet
+    acceptable: every altered copy is a protocol error, every genuine one still decodes to its payload."""
+    pkts = []
+    for data in datas:
+        pad = rb(rng, (16 - (len(data) + 2) % 16) % 16)
+        pkts.append(bytes.fromhex(ctx.driver.ask(f"spec_v3_encode key={hx(key)} type=3 ctr={rng.randrange(4096)} data={hx(data)} pad={hx(pad)}")))
+    for which, pkt in enumerate(pkts):
+        L = len(pkt)
+        positions = range(L) if thorough else sorted(set(range(0, 8)) | set(rng.sample(range(L), min(L, 12))) | {L - 33, L - 32, L - 1})
+        for i in positions:
+            for b in (range(8) if thorough else [rng.randrange(8)]):
+                if i == 5 and b < 4:
+                    continue               # the type nibble: another packet type, covered by `type_flip`
+                m = bytearray(pkt)
+                m[i] ^= 1 << b
+                seq = pkts + [bytes(m)] + [pkt]
+                out = lanimpl.v3_process_seq(key, seq)
+                want = [hx(d) for d in datas] + ["err:protocol", hx(datas[which])]
+                inp = {"key": hx(key), "sequence": [hx(x) for x in seq], "note": f"after {len(pkts)} genuine: bit {b} of byte {i} of packet {which}"}
+                if out != want:
+                    ctx.violate("tamper_after_genuine", inp, out, want,
+                                "an altered copy of an encrypted response is not rejected once the genuine one has been accepted on the same connection")
+                ctx.case("tamper_after_genuine", key=(hx(bytes(m)), which), sample={"genuine": len(pkts), "byte": i})
+
+
 def session(ctx, rng, n_exchanges):
     """SEVERAL encrypted requests and responses on ONE connection (one protocol object, one session key): every
     request must decode at the independent device implementation (and, packet by packet, under the Spec decoder) to
@@ -209,6 +236,8 @@ def run(ctx):
     if ctx.driver:
         for n in ([0, 13, 14, 15, 30, 104] if not thorough else [0, 1, 13, 14, 15, 16, 29, 30, 31, 104, 200]):
             tamper(ctx, rng, rb(rng, 32), rb(rng, n))
+        for lens in ([(14,), (30, 5)] if not thorough else [(0,), (14,), (30, 5), (13, 13, 40)]):
+            tamper_after_genuine(ctx, rng, rb(rng, 32), [rb(rng, n) for n in lens], thorough)
 
 
 def search(ctx):
